@@ -272,6 +272,7 @@ func instFallthroughMeta(interp *Interpreter, instr *InstrMeta) (ExitReason, Pro
 // opcode 10
 func instEcalliMeta(interp *Interpreter, instr *InstrMeta) (ExitReason, ProgramCounter) {
 	nuX := instr.Imm[0]
+	interp.HostCallIndex = nuX
 	return hostCallExit(nuX), instr.PC
 }
 
